@@ -114,6 +114,89 @@ def _job(args):
     return out
 
 
+RECIPES = ["space-corner-then-time-end", "time-end-then-space-corner", "time-start-graded", "time-band", "space-point-both-slabs", "column-time-graded"]
+
+
+def _find(mesh, t, x):
+    for e in mesh.leaf_elements:
+        if e.time_interval[0] <= t < e.time_interval[1] and e.space_interval[0] <= x % float(mesh.gamma_space.pw_start[-1]) < e.space_interval[1]:
+            return e
+    raise RuntimeError("no leaf at %r" % ((t, x),))
+
+
+def _graded_job(args):
+    """Strongly graded meshes (local refinement in time next to elements spanning a long time interval, local
+    refinement in space in one slab only, a refined time band): the configurations in which the time-integrated
+    kernel sees nested, start- or end-aligned and strictly interior time intervals of very different length."""
+    name, tunit, recipe, depth = args
+    from src.single_layer import SingleLayerOperator
+    lay = ParamLayout(name, 1, 12, tunit)
+    mesh = lay.new_mesh()
+    T = tunit
+    L = float(lay.xgrid[-1])
+    xc = float(lay.xgrid[1]) if len(lay.xgrid) > 2 else 0.0        # a vertex of the curve (a parameter value on the circle)
+    eps_t, eps_x = T * 2.0 ** -20, L * 2.0 ** -20
+
+    def ok(e, ax):
+        hx, ht = (e.h_x / 2, e.h_t) if ax == 1 else (e.h_x, e.h_t / 2)
+        return hx ** 2 / ht <= 32
+
+    def ref(t, x, ax):
+        e = _find(mesh, t, x)
+        if not ok(e, ax):
+            # refine in space first to stay within the aspect range
+            with contextlib.redirect_stdout(io.StringIO()):
+                mesh.refine_axis(e, 1)
+            e = _find(mesh, t, x)
+        with contextlib.redirect_stdout(io.StringIO()):
+            mesh.refine_axis(e, ax)
+    if recipe == "space-corner-then-time-end":
+        for _ in range(depth + 1):
+            ref(T - eps_t, xc + eps_x, 1)
+        for _ in range(depth):
+            ref(T - eps_t, xc + eps_x, 0)
+    elif recipe == "time-end-then-space-corner":
+        for _ in range(depth):
+            ref(T - eps_t, xc - eps_x, 0)
+        for _ in range(depth + 1):
+            ref(T - eps_t, xc - eps_x, 1)
+    elif recipe == "time-start-graded":
+        for _ in range(depth + 1):
+            ref(eps_t, xc + eps_x, 1)
+        for _ in range(depth + 1):
+            ref(eps_t, xc + eps_x, 0)
+    elif recipe == "time-band":
+        with contextlib.redirect_stdout(io.StringIO()):
+            mesh.uniform_refine()
+            for _ in range(2):
+                for e in list(mesh.leaf_elements):
+                    if e.h_x ** 2 / (e.h_t / 2) <= 32:
+                        mesh.refine_time(e) if not e.children else None
+            for e in list(mesh.leaf_elements):
+                if not e.children and 0.25 * T <= e.time_interval[0] and e.time_interval[1] <= 0.5 * T and e.h_x ** 2 / (e.h_t / 2) <= 32:
+                    mesh.refine_time(e)
+    elif recipe == "space-point-both-slabs":
+        ref(0.5 * T, xc + eps_x, 1)
+        ref(0.25 * T, xc + eps_x, 0)
+        for _ in range(depth):
+            ref(eps_t, xc + eps_x, 1)
+        for _ in range(depth - 1):
+            ref(T - eps_t, 0.5 * L + eps_x, 0)
+    elif recipe == "column-time-graded":
+        for _ in range(2):
+            ref(0.5 * T, xc + eps_x, 1)
+        for k in range(depth + 1):
+            ref(0.5 * T + eps_t, xc + eps_x, 0)
+    elems = list(mesh.leaf_elements)
+    asp = max(e.h_x ** 2 / e.h_t for e in elems)
+    if asp > 32 or len(elems) > 300:
+        return {"skip": "aspect %g n %d" % (asp, len(elems))}
+    with contextlib.redirect_stdout(io.StringIO()):
+        SL = SingleLayerOperator(mesh)
+    ratio = max(e.h_t for e in elems) / min(e.h_t for e in elems)
+    return {"n": len(elems), "lam": lam_min(SL, elems), "aspect": asp, "time_ratio": ratio}
+
+
 def run(prop, tier, seed):
     setup_path()
     ctx = Ctx("C13", tier, seed)
@@ -174,6 +257,20 @@ def run(prop, tier, seed):
         st["min_lambda_blocks"] = min([r["lam6"] for r in recs if r["curve"] == name and r["cls"].startswith("block")] or [0]) / 1e6
         stats.append(st)
         ctx.log("curve %s" % st)
+    # strongly graded meshes (time-size ratios of 4 and more inside one mesh)
+    gjobs = [(name, tunit, rc, d) for name, tunit in (("UnitSquare", 1.0), ("Circle", 1.0), ("LShape", 1.0), ("PiSquare", 4.0))
+             for rc in RECIPES for d in ((3, 4) if quick else (2, 3, 4, 5))]
+    with mp.get_context("fork").Pool(16) as pool:
+        gouts = pool.map(_graded_job, gjobs, chunksize=1)
+    graded = []
+    for job, o in zip(gjobs, gouts):
+        if "skip" in o:
+            graded.append({"job": list(job), "skip": o["skip"]})
+            continue
+        recs.append({"cls": "graded-mesh:%s:%s" % (job[0], job[2]), "lam6": int(math.floor(1e6 * o["lam"])), "n": o["n"], "curve": job[0],
+                     "graded_job": list(job)})
+        graded.append({"job": list(job), "n": o["n"], "lambda_min": o["lam"], "time_ratio": o["time_ratio"], "aspect": o["aspect"]})
+    ctx.log("graded %s" % [(g["job"][0], g["job"][2], g.get("n"), round(g.get("lambda_min", 0), 3), g.get("time_ratio"), g.get("skip")) for g in graded])
     # larger random meshes beyond the budget
     big = []
     for name, tunit in (("UnitSquare", 1.0), ("Circle", 1.0), ("LShape", 1.0), ("PiSquare", 4.0)):
@@ -219,6 +316,6 @@ def run(prop, tier, seed):
     ctx.cov = {"evaluations": len(recs), "distinct_nontrivial": len({(r["cls"], str(r.get("leaves", r["n"]))) for r in recs if r["cls"].startswith("mesh")}),
                "rule": "every STMesh state within the budget that refines the real initial mesh (per curve; capped at %d, flagged when sampled) rebuilt as a real mesh and assembled; "
                        "plus 4x4 child blocks and larger random meshes; distinct_nontrivial = distinct meshes" % cap,
-               "samples": [recs[0], recs[-1]] if recs else [], "per_curve": stats, "random_meshes": big, "judge_tlc": jres.stats(), "binding_selftest": st_self}
+               "samples": [recs[0], recs[-1]] if recs else [], "per_curve": stats, "random_meshes": big, "graded_meshes": graded, "judge_tlc": jres.stats(), "binding_selftest": st_self}
     ctx.assumptions = ["eigenvalues by numpy.linalg.eigvalsh; diagonal scaling with the computed diagonal; aspect h_x^2/h_t <= 32"]
     return ctx.finish()
